@@ -165,10 +165,18 @@ def generic_elimination(rep: Report, prog: Program) -> None:
                'an iteration can finish without substituting x[k] into the other rows (a right-hand side of a rank no branch handles is returned unchanged): ' + ' -> '.join(fcfg.describe(w).split(':', 1)[0] for w in (wit or [])[-4:]))
     for l in loops:
         k = norm(l.target)
-        first = l.body[0] if l.body else None
-        oks = isinstance(first, ast.Assign) and any(isinstance(x, ast.Call) and callee_last(x) == 'star' and norm(x.args[0]).endswith(f"[{k}, {k}]") for x in ast.walk(first.value)) \
-            and norm(first.targets[0]).endswith(f"[:, {k}]")
-        rep.ob(rule, f.fq(), f"pivot column scaled by star(a[{k},{k}]) first", f.loc(l), bool(oks), '' if oks else 'the first statement of the pivot loop is not a[:,k] = mul(a[:,k], star(a[k,k]))')
+        # the scaling a[:,k] = mul(a[:,k], star(a[k,k])) precedes, on every path of the iteration, the two updates that read the column
+        hdr = fcfg.node_of(l)
+        be = [b for b, lab in fcfg.succ[hdr] if lab == 'iter'][0]
+        def scales(m, k=k):
+            st = fcfg.nodes[m].stmt
+            return fcfg.nodes[m].kind == 'stmt' and isinstance(st, ast.Assign) and norm(st.targets[0]).endswith(f"[:, {k}]") \
+                and any(isinstance(x, ast.Call) and callee_last(x) == 'star' and x.args and norm(x.args[0]).endswith(f"[{k}, {k}]") for x in ast.walk(st.value))
+        users = {m for m in fcfg.loop_body.get(hdr, set()) if fcfg.nodes[m].kind == 'stmt' and not scales(m)
+                 and any(isinstance(x, ast.Call) and callee_last(x) in ('add_', 'add') for x in ast.walk(fcfg.nodes[m].stmt))}
+        has = any(scales(m) for m in fcfg.loop_body.get(hdr, set()))
+        oks = has and bool(users) and fcfg.all_paths_pass(be, scales, targets=users)[0]
+        rep.ob(rule, f.fq(), f"pivot column scaled by star(a[{k},{k}]) first", f.loc(l), bool(oks), '' if oks else 'the pivot loop does not scale a[:,k] by star(a[k,k]) before the updates that read the column')
 
 
 # ------------------------------------------------------------------------------------------ D4 rank of transposed values
